@@ -40,6 +40,7 @@ Formats ==
     Int2x16 |-> Uniform(2, 16, "sint", 1), Uint2x16 |-> Uniform(2, 16, "uint", 1), Int4x16 |-> Uniform(4, 16, "sint", 1), Uint4x16 |-> Uniform(4, 16, "uint", 1),
     Int2x32 |-> Uniform(2, 32, "sint", 1), Uint2x32 |-> Uniform(2, 32, "uint", 1), Double2x32 |-> Uniform(2, 32, "uint", 1),
     \* templated packUnorm<uintN> / packSnorm<intN> on vectors: one field per component, each in its own word
+    Half1x16 |-> Uniform(1, 16, "half", 1), Half2x16 |-> Uniform(2, 16, "half", 1), Half4x16 |-> Uniform(4, 16, "half", 1),
     TUnorm8 |-> Uniform(1, 8, "unorm", 255), TUnorm16 |-> Uniform(1, 16, "unorm", 65535),
     TSnorm8 |-> Uniform(1, 8, "snorm", 127), TSnorm16 |-> Uniform(1, 16, "snorm", 32767) ]
 
